@@ -23,9 +23,9 @@ EXTENDS AdfSem, AdfSyntax, Integers, Json, IOUtils, TLC
 
 Rec == ndJsonDeserialize(IOEnv.TRACE)
 
-VARIABLES l, codes, lastpw, prevprobs, actors, race, quiet
+VARIABLES l, codes, lastpw, prevprobs, actors, race, quiet, asked
 
-vars == <<l, codes, lastpw, prevprobs, actors, race, quiet>>
+vars == <<l, codes, lastpw, prevprobs, actors, race, quiet, asked>>
 
 RangeOf(sq) == { sq[i] : i \in DOMAIN sq }
 Report(ok, id, prop, what) == ok \/ PrintT(<<"MISMATCH", l, id, prop, what, race>>)
@@ -96,7 +96,7 @@ GraphOK(g, names, asts, v) ==
 
 \* ------------------------------------------------------------------ one stored / shown problem
 \* settled: TRUE when no accepted task is still pending (then "None" is not an acceptable parse state)
-CheckProblem(p, id, where, settled) ==
+CheckProblemSmall(p, id, where, settled) ==
   LET strict == Parse(p.code_cp)
       good == strict.ok /\ WellFormedFacts(strict.facts)
       names == Names(strict.facts)
@@ -131,6 +131,9 @@ CheckProblem(p, id, where, settled) ==
   /\ (good /\ settled) => Report(parse.type = "Some", id, "C16", "parse-result-never-stored")
   /\ (settled /\ where = "http") => Report(p.running = <<>>, id, "C16", "task-reported-running-at-quiescence")
 
+\* codes beyond brute-force semantics (the slow-task scenario) are outside the content oracle: DONT_CARE for content
+CheckProblem(p, id, where, settled) == Len(p.code_cp) > 220 \/ CheckProblemSmall(p, id, where, settled)
+
 \* ------------------------------------------------------------------ HTTP events
 NeedsLogin == {"get", "list", "solve", "delete", "info", "logout", "update", "delete_account"}
 
@@ -148,6 +151,10 @@ CheckHttp(r) ==
   /\ (r.op = "login" /\ race = "none") =>
        Report((r.status = 200) = (r.args.username \in DOMAIN lastpw /\ lastpw[r.args.username] = r.args.password),
               r.id, "C17", "login-iff-password")
+  \* C16: a task is reported as running for a problem only if THIS person started such a task for that problem name
+  \* (an unnamed add gets a generated name: any accepted add of this person explains a running Parse)
+  /\ \A i \in DOMAIN shown : \A t \in RangeOf(shown[i].running) :
+       Report(<<r.p, shown[i].name, t>> \in asked \/ (t = "Parse" /\ \E a \in asked : a[1] = r.p /\ a[3] = "Parse" /\ a[2] = ""), r.id, "C16", <<"running-task-nobody-started-for-this-problem", t>>)
   \* C16: content of every shown problem
   /\ \A i \in DOMAIN shown : CheckProblem(shown[i], r.id, "http", quiet /\ "final" \in DOMAIN r)
   \* C16: solving unparseable code is refused
@@ -194,25 +201,28 @@ CheckDb(r) ==
 
 \* ------------------------------------------------------------------ the trace machine
 Init == /\ l = 1 /\ codes = [q \in 1..3 |-> {}] /\ lastpw = [x \in {} |-> ""] /\ prevprobs = <<>>
-        /\ actors = {} /\ race = "none" /\ quiet = TRUE
+        /\ actors = {} /\ race = "none" /\ quiet = TRUE /\ asked = {}
 
 Next ==
   /\ l <= Len(Rec) /\ l' = l + 1
   /\ LET r == Rec[l] IN
      CASE r.kind = "reset" ->
             /\ codes' = [q \in 1..3 |-> {}] /\ lastpw' = [x \in {} |-> ""] /\ prevprobs' = <<>> /\ actors' = {}
-            /\ race' = (IF "race" \in DOMAIN r THEN r.race ELSE "none") /\ quiet' = TRUE
+            /\ race' = (IF "race" \in DOMAIN r THEN r.race ELSE "none") /\ quiet' = TRUE /\ asked' = {}
        [] r.kind = "http" ->
             /\ CheckHttp(r) \in BOOLEAN
             /\ codes' = IF r.op = "add" /\ r.p # 0 THEN [codes EXCEPT ![r.p] = @ \cup {r.args.code}] ELSE codes
             /\ lastpw' = NextPw(r)
             /\ actors' = IF r.p # 0 THEN actors \cup {r.p} ELSE actors
+            \* which tasks did this person ever start (accepted add -> Parse, accepted solve -> that strategy)
+            /\ asked' = IF r.status = 200 /\ r.op = "solve" THEN asked \cup {<<r.p, r.args.name, r.args.strategy>>}
+                         ELSE IF r.status = 200 /\ r.op = "add" THEN asked \cup {<<r.p, r.args.name, "Parse">>} ELSE asked
             /\ UNCHANGED <<prevprobs, race, quiet>>
        [] r.kind = "db" ->
             /\ CheckDb(r) \in BOOLEAN
             /\ prevprobs' = r.dump.probs /\ actors' = {} /\ quiet' = (r.pending_writes = 0)
-            /\ UNCHANGED <<codes, lastpw, race>>
-       [] OTHER -> UNCHANGED <<codes, lastpw, prevprobs, actors, race, quiet>>
+            /\ UNCHANGED <<codes, lastpw, race, asked>>
+       [] OTHER -> UNCHANGED <<codes, lastpw, prevprobs, actors, race, quiet, asked>>
 
 Spec == Init /\ [][Next]_vars
 Consumed == (TLCGet("stats").diameter - 1 = Len(Rec))
